@@ -8,6 +8,7 @@ EXTENDS Integers, Sequences, FiniteSets, TLC
 
 CONSTANT StartCap        \* kStringBufferStartingSize: 1024 in the code; tiny when model checking the capacity design
 MAX == -1                \* stands for (size_t)-1
+MAX1 == -2               \* stands for (size_t)-2: a length that is not the "to the end" value but reaches beyond any buffer (pos + len wraps in size_t arithmetic)
 
 RECURSIVE Rep(_, _)
 Rep(c, n) == IF n <= 0 THEN "" ELSE IF n % 2 = 0 THEN LET h == Rep(c, n \div 2) IN h \o h ELSE c \o Rep(c, n - 1)
@@ -29,13 +30,13 @@ InsertAt(s, pos, p) == LET q == Clamp(pos, Len(s)) IN Prefix(s, q) \o p \o Suffi
 Bytes(p, n) == IF n = MAX THEN p ELSE Prefix(p, n)          \* precondition n <= Len(p)
 EraseAt(s, pos, len) ==
   IF Gt(pos, Len(s)) \/ len = 0 THEN s
-  ELSE IF len = MAX \/ pos + len >= Len(s) THEN Prefix(s, pos)
+  ELSE IF len = MAX \/ len = MAX1 \/ pos + len >= Len(s) THEN Prefix(s, pos)
   ELSE Prefix(s, pos) \o Suffix(s, pos + len)
 \* copy_substring: <<ok, text>>
 CopyOf(s, start, len) ==
   IF start = MAX \/ start > Len(s) THEN <<FALSE, "">>
   ELSE LET n == IF len = MAX THEN Len(s) - start ELSE len IN
-       IF start + n > Len(s) THEN <<FALSE, "">> ELSE <<TRUE, Sub(s, start + 1, start + n)>>
+       IF len = MAX1 \/ start + n > Len(s) THEN <<FALSE, "">> ELSE <<TRUE, Sub(s, start + 1, start + n)>>
 \* replace_text_in_range: occurrences of o that lie entirely inside [pos, pos+len) are replaced, left to right,
 \* never rescanning replaced text; text outside the range is untouched.  Precondition o # "".
 RECURSIVE ReplLoop(_, _, _, _, _)
@@ -45,7 +46,7 @@ ReplLoop(s, from, stop, o, r) ==        \* from, stop: 0-based offsets
   ELSE ReplLoop(Prefix(s, m - 1) \o r \o Suffix(s, m - 1 + Len(o)), m - 1 + Len(r), stop + Len(r) - Len(o), o, r)
 ReplaceIn(s, pos, len, o, r) ==
   IF Gt(pos, Len(s)) THEN s
-  ELSE LET stop == IF len = MAX THEN Len(s) ELSE Min2(pos + len, Len(s)) IN ReplLoop(s, pos, stop, o, r)
+  ELSE LET stop == IF len = MAX \/ len = MAX1 THEN Len(s) ELSE Min2(pos + len, Len(s)) IN ReplLoop(s, pos, stop, o, r)
 
 \* ---- capacity, as ensureStringBufferCanHold grows it ----------------------------------------
 RECURSIVE Grow(_, _)
@@ -62,7 +63,8 @@ Pay == [ P0 |-> "", Pa |-> "a", Pab |-> "ab", Pba |-> "ba", Pabc |-> "abc", Ppct
          S3 |-> "xxx", S4 |-> "xxxx", S5 |-> "xxxxx", S7 |-> "abaabab", S8 |-> "abaababa" ]
 PayNames == DOMAIN Pay
 Chr == [ c97 |-> "a", c120 |-> "x", c37 |-> "%", c0 |-> "", c233 |-> "Q", c255 |-> "Z" ]      \* c0: a NUL character is documented as a no-op; Q / Z stand for the bytes 0xE9 / 0xFF (renamed by the check on both sides)
-Fmt(kind, arg) == IF kind = "d" THEN ToString(arg) ELSE "<" \o Pay[arg] \o ">"
+\* format kinds: "d" = "%d", "s" = "<%s>", "l" = the payload itself as the format (no conversion in it), "pp" = payload, "%%", payload (an escaped percent sign, no argument)
+Fmt(kind, arg) == CASE kind = "d" -> ToString(arg) [] kind = "l" -> Pay[arg] [] kind = "pp" -> Pay[arg] \o "%" \o Pay[arg] [] OTHER -> "<" \o Pay[arg] \o ">"
 
 \* ---- one step: op record -> new string ------------------------------------------------------
 \* op records: [op |-> name, pos |-> int, len |-> int, p |-> payload name, q |-> payload name, c |-> chr name,
